@@ -351,6 +351,58 @@ func FixedCorpus() []*Unit {
 		out = append(out, uu)
 	}
 
+	// ---- samepkg: three files of ONE Go package; a_main imports the two others
+	// (which do not import each other) and its generated file sorts first
+	{
+		gp := GoRoot + "samepkg"
+		fm := NewFile("verif/samepkg/m_types.proto", "verif.samepkg", gp)
+		mt := fm.Msg("M")
+		mt.F("v", 1, S(Int32))
+		mt.R("tags", 2, S(String))
+		fz := NewFile("verif/samepkg/z_types.proto", "verif.samepkg", gp)
+		fz.Enum("Shape", "SHAPE_UNSPECIFIED", 0, "SHAPE_ROUND", 1, "SHAPE_FLAT", 4)
+		zt := fz.Msg("Z")
+		zt.F("s", 1, E("verif.samepkg.Shape"))
+		zt.Map("m", 2, String, S(Int64))
+		fa := NewFile("verif/samepkg/a_main.proto", "verif.samepkg", gp, "verif/samepkg/m_types.proto", "verif/samepkg/z_types.proto")
+		am := fa.Msg("Main")
+		am.F("m", 1, M("verif.samepkg.M"))
+		am.F("z", 2, M("verif.samepkg.Z"))
+		am.F("shape", 3, E("verif.samepkg.Shape"))
+		am.R("zs", 4, M("verif.samepkg.Z"))
+		am.Map("by", 5, String, M("verif.samepkg.M"))
+		am.R("shapes", 6, E("verif.samepkg.Shape"))
+		o := am.Oneof("pick")
+		am.O(o, "pm", 7, M("verif.samepkg.M"))
+		am.O(o, "ps", 8, E("verif.samepkg.Shape"))
+		out = append(out,
+			&Unit{Name: "samepkg_m", File: fm, Label: []string{"same Go package, file 1 of 3 (imported, messages only)"}},
+			&Unit{Name: "samepkg_z", File: fz, Label: []string{"same Go package, file 2 of 3 (imported, enum + message)"}},
+			&Unit{Name: "samepkg_a", File: fa, Label: []string{"same Go package, file 3 of 3: imports two sibling files, sorts first"}})
+	}
+
+	// ---- wkt2: well-known types without the recursive ones (usable by generators that cannot bound Struct/Value)
+	{
+		u, f := unit("wkt2", "Any/Timestamp/Duration/FieldMask in singular/repeated/map(bool and string keys)/oneof, no Struct/Value")
+		f.P.Dependency = append(f.P.Dependency, "google/protobuf/any.proto", "google/protobuf/timestamp.proto", "google/protobuf/duration.proto", "google/protobuf/field_mask.proto")
+		wk := []struct{ n, t string }{{"any", "google.protobuf.Any"}, {"ts", "google.protobuf.Timestamp"}, {"dur", "google.protobuf.Duration"}, {"fm", "google.protobuf.FieldMask"}}
+		m := f.Msg("Holder")
+		n := 1
+		for _, w := range wk {
+			m.F(w.n, n, M(w.t))
+			m.R(w.n+"s", n+1, M(w.t))
+			m.Map(w.n+"_by_bool", n+2, Bool, M(w.t))
+			m.Map(w.n+"_by_name", n+3, String, M(w.t))
+			n += 4
+		}
+		o := m.Oneof("one")
+		for _, w := range wk {
+			m.O(o, "one_"+w.n, n, M(w.t))
+			n++
+		}
+		out = append(out, u)
+	}
+
 	// ---- wkt: well-known types in every position
 	{
 		u, f := unit("wkt", "Any/Timestamp/Duration/FieldMask/Struct/Value/wrappers/Empty in singular/repeated/map/oneof")
